@@ -54,11 +54,6 @@ PlainImages(v) ==
 (* byte-reversed, canonical prefix followed by junk - and run the          *)
 (* operation on that.                                                      *)
 (***************************************************************************)
-FlipBit(m, p) ==                           \* bit p (0 = msb of byte 1) of m inverted
-  LET i == (p \div 8) + 1  k == P2[8 - (p % 8)] IN
-  [m EXCEPT ![i] = IF (@ \div k) % 2 = 1 THEN @ - k ELSE @ + k]
-RevQuad(m, q) ==                           \* quadlet q (0-based) byte-reversed
-  [m EXCEPT ![4*q + 1] = m[4*q + 4], ![4*q + 2] = m[4*q + 3], ![4*q + 3] = m[4*q + 2], ![4*q + 4] = m[4*q + 1]]
 KVal == <<1, 35, 69, 103, 137, 171, 205, 239>>          \* 0x0123456789ABCDEF: no byte symmetry
 NearVals(w) == { Low(KVal, w), Low(KVal, (w + 1) \div 2), Zero64 }
 QuadsOf(v, f) == (FStart(v, f) \div 32)..((FStart(v, f) + FW(v, f) - 1) \div 32)
